@@ -234,6 +234,8 @@ func (group *Group) Dispose() {
 	if group.psPubSession != nil {
 		group.psPubSession.Dispose()
 	}
+	// pull也是输入，包括还在建立中的
+	group.disposePull()
 
 	for session := range group.rtmpSubSessionSet {
 		session.Dispose()
